@@ -96,7 +96,7 @@ SITUATIONS = ['state:A:INIT_REQ_SENT', 'state:A:AUTH_REQ_SENT', 'state:A:NEW_CHI
               'cookie_retry', 'init_invalid_ke', 'child_invalid_ke', 'rekey_child_invalid_ke', 'rekey_ike_invalid_ke']
 
 
-def h_retx(sit, k, answer_at):
+def h_retx(sit, k, answer_at, then_new=False):
     """k ticks; if answer_at is not None the genuine response is delivered just before tick `answer_at`"""
     from symx import core
     eng = core.engine()
@@ -127,6 +127,16 @@ def h_retx(sit, k, answer_at):
                 n_ret = 0
                 D4 = t0 + 1000 * sum(ik.RETRANSMISSION_DELAY * j for j in range(1, ik.MAX_RETRANSMISSIONS + 1))
                 after_d4 = 0
+            elif then_new and me.state == S.ESTABLISHED and me.child_sas:
+                # the exchange is over; the NEXT request of this IKE_SA starts right now (the kernel reports a hard expire)
+                nxt = E.call(me.process_expire, me.child_sas[0].inbound_spi, True)
+                assert nxt is not None
+                sent = bytes(nxt)
+                t0 = t
+                deadlines = [me.retransmit_at.ms]
+                n_ret = 0
+                D4 = t0 + 1000 * sum(ik.RETRANSMISSION_DELAY * j for j in range(1, ik.MAX_RETRANSMISSIONS + 1))
+                after_d4 = 0
             else:
                 outstanding = False
         world.ENV.now = world.T(t)
@@ -150,7 +160,12 @@ def h_retx(sit, k, answer_at):
             break
     if n_ret > ik.MAX_RETRANSMISSIONS:
         return {'class': ['retx'], 'violation': f'{n_ret} retransmissions exceed the built-in maximum {ik.MAX_RETRANSMISSIONS}'}
-    gaps = [b - a for a, b in zip(deadlines, deadlines[1:])]
+    # intervals: from handing the request to the network to the first deadline, then between consecutive deadlines
+    gaps = [deadlines[0] - t0] + [b - a for a, b in zip(deadlines, deadlines[1:])]
+    if outstanding:
+        for n, d in enumerate(deadlines[:ik.MAX_RETRANSMISSIONS]):
+            P(d <= t0 + 1000 * sum(ik.RETRANSMISSION_DELAY * j for j in range(1, n + 2)),
+              f'deadline {n + 1} of the outstanding request lies beyond the built-in schedule (the retransmission budget grows)')
     for g1, g2 in zip(gaps, gaps[1:]):
         P(g2 >= g1, 'retransmission intervals decrease')
     for g in gaps:
@@ -256,9 +271,52 @@ def h_lifetime(scn):
     return ['lifetime', 'retried']
 
 
+BUSY_STEPS_MS = (250, 400, 900, 1000, 1700)
+
+
+def h_busy(kind):
+    """the peer crashes; the daemon's REAL main_loop keeps being woken up by unrelated events (select never times out) every `step` (arbitrary among
+    BUSY_STEPS_MS): the probe, the retransmissions and the teardown must still happen - IKE_SA and kernel SAs gone within DPD interval + budget"""
+    from symx import core
+    eng = core.engine()
+    ik = MODS['ikesa'].IkeSa
+    dpd_s = 5
+    n = world.Net(dpd=dpd_s, ike_lifetime=360000, lifetime=36000)
+    n.establish()
+    c = eng.sym_int('step', 0, len(BUSY_STEPS_MS) - 1)
+    step = BUSY_STEPS_MS[eng.concretize(c, 0, len(BUSY_STEPS_MS) - 1) if not isinstance(c, int) else c] / 1000.0
+    budget = sum(ik.RETRANSMISSION_DELAY * i for i in range(1, ik.MAX_RETRANSMISSIONS + 1))
+    horizon = dpd_s + budget + 2 * max(step, 1) + 1
+    m = MODS['message']
+    junk = bytes(m.Message(spi_i=b'UNKNOWN!', spi_r=b'unknown!', major=2, minor=0, exchange_type=37, is_response=False, can_use_higher_version=False,
+                           is_initiator=True, message_id=7, payloads=[], encrypted_payloads=[]).to_bytes())
+    ev = {'udp_junk': {'kind': 'udp', 'dst': world.IP1, 'src': '203.0.113.77', 'data': junk},
+          'xfrm_junk': {'kind': 'xfrm', 'data': world.expire_bytes(b'\xde\xad\xbe\xef', True)},
+          'control': {'kind': 'control'},
+          'idle': {'kind': 'tick'}}[kind]
+    iters = int(horizon / step) + 2
+    lp = world.Loop(n.A, tick_s=step)
+    t_start = world.ENV.now.ms
+    try:
+        ok = lp.run([dict(ev) for _ in range(iters)])
+    except Exception as ex:      # noqa
+        return {'class': ['busy'], 'violation': f'main_loop terminated with {type(ex).__name__}: {ex}'}
+    to_peer = [d for _, dst, d in lp.outbox if dst[0] == str(world.IP2)]
+    if n.a.ike_sas or n.A.kernel.sad:
+        return {'class': ['busy'], 'violation': f'peer crashed, one {kind} event every {step} s: {horizon:.1f} s (DPD interval {dpd_s} s + retransmission budget {budget} s + slack) '
+                                                f'later the IKE_SA is still {[e.state.name for e in n.a.ike_sas]} with {len(n.A.kernel.sad)} kernel SAs; {len(to_peer)} datagrams were sent to the peer'}
+    if not (1 <= len(to_peer) <= ik.MAX_RETRANSMISSIONS) or len(set(bytes(x) for x in to_peer)) != 1:
+        return {'class': ['busy'], 'violation': f'{len(to_peer)} datagrams to the crashed peer ({len(set(bytes(x) for x in to_peer))} distinct), expected the probe '
+                                                f'transmitted byte-identically at most {ik.MAX_RETRANSMISSIONS} times'}
+    return ['busy', kind]
+
+
 def build_instances(tier):
     inst = []
     nat = common.native_of
+    for kind in ('udp_junk', 'xfrm_junk', 'control', 'idle'):
+        inst.append(Instance(f'peer crash under steady {kind} events', h_busy, (kind,), native=nat(h_busy), engine_kw={'max_ticks': 10 ** 7},
+                             must_reach=[('torn down', lambda o: o[0] == 'busy')]))
     k = 6 if tier == 'quick' else 9
     for sit in SITUATIONS:
         inst.append(Instance(f'retransmit {sit} k={k}', h_retx, (sit, k, None), native=nat(h_retx),
@@ -266,6 +324,9 @@ def build_instances(tier):
                                          ('retransmitted', lambda o: len(o) > 2 and o[0] == 'retx' and o[1] >= 1)]))
         for at in ((0, 2) if tier == 'quick' else (0, 1, 2, 3, 4)):
             inst.append(Instance(f'retransmit {sit} k={k - 2} answered_at={at}', h_retx, (sit, k - 2, at), native=nat(h_retx)))
+        if sit.startswith('state:') and sit.split(':')[2] in ('NEW_CHILD_REQ_SENT', 'DPD_REQ_SENT', 'REK_CHILD_REQ_SENT', 'AUTH_REQ_SENT'):
+            for at in ((2,) if tier == 'quick' else (1, 2, 3)):
+                inst.append(Instance(f'retransmit {sit} k={k - 1} answered_at={at} then the next request', h_retx, (sit, k - 1, at, True), native=nat(h_retx)))
     for who in ('A', 'B'):
         inst.append(Instance(f'dpd {who}', h_dpd, (who,), native=nat(h_dpd),
                              must_reach=[('probe', lambda o: o == ['dpd', 'probe']), ('quiet', lambda o: o == ['dpd', 'quiet'])]))
